@@ -25,7 +25,7 @@ def main():
             p = subprocess.run(['go', 'build', './...'], cwd=d, capture_output=True, text=True, env=env)
             if p.returncode != 0:
                 return mode, 'skipped', 'rewritten tree does not build: ' + p.stderr[-200:]
-            p = subprocess.run([os.path.join(here, 'bin', 'notacheck'), '-property', pid, '-tier', 'quick', '-repo', d, '-no-evidence', '-json'],
+            p = subprocess.run([os.environ.get('NOTACHECK', os.path.join(here, 'bin', 'notacheck')), '-property', pid, '-tier', 'quick', '-repo', d, '-no-evidence', '-json'],
                                capture_output=True, text=True, errors='replace', env=env)
             keys = []
             for line in p.stdout.splitlines():
